@@ -193,45 +193,53 @@ def vBool (v : Y) : R :=
               else if boolTrue.contains (lowerS s) then .ok (.bool true) else .reject
   | _ => .reject
 
-def vInt (r : Option Range) (v : Y) : R :=
-  let conv : R := match v with
-    | .none => .ok .none
-    | .bool b => .ok (.int (if b then 1 else 0))
-    | .int i => .ok (.int i)
-    | .rat n d => .ok (.int (truncQ n d))
-    | .nan => .reject
-    | .inf _ => .raise
-    | .str s => match pyInt s with | .val i => .ok (.int i) | .err => .reject | .unknown => .unmodelled
-  match conv with
+/-- the shared tail of the numeric validators: `None` passes, a converted value must be in range -/
+def rangeCheck (r : Option Range) : R → R
   | .ok .none => .ok .none
   | .ok x => if inRange r x then .ok x else .reject
   | o => o
 
-def vFloat (r : Option Range) (v : Y) : R :=
-  let conv : R := match v with
-    | .none => .ok .none
-    | .bool b => .ok (.rat (if b then 1 else 0) 1)
-    | .int i => .ok (.rat i 1)
-    | .rat n d => .ok (.rat n d)
-    | .nan => .ok .nan
-    | .inf s => .ok (.inf s)
-    | .str s => match pyFloat s with | .val y => .ok y | .err => .reject | .unknown => .unmodelled
-  match conv with
-  | .ok .none => .ok .none
-  | .ok x => if inRange r x then .ok x else .reject
-  | o => o
+/-- `int(item)` -/
+def intConv : Y → R
+  | .none => .ok .none
+  | .bool b => .ok (.int (if b then 1 else 0))
+  | .int i => .ok (.int i)
+  | .rat n d => .ok (.int (truncQ n d))
+  | .nan => .reject
+  | .inf _ => .raise
+  | .str s => match pyInt s with | .val i => .ok (.int i) | .err => .reject | .unknown => .unmodelled
 
-def vNum (r : Option Range) (v : Y) : R :=
-  let conv : R := match v with
-    | .none => .ok .none
-    | .str s =>
-      if s.toList.any (· == '.') then (match pyFloat s with | .val y => .ok y | .err => .reject | .unknown => .unmodelled)
-      else (match pyInt s with | .val i => .ok (.int i) | .err => .reject | .unknown => .unmodelled)
-    | x => .ok x
-  match conv with
-  | .ok .none => .ok .none
-  | .ok x => if inRange r x then .ok x else .reject
-  | o => o
+def vInt (r : Option Range) (v : Y) : R := rangeCheck r (intConv v)
+
+/-- `float(item)`; the result is one of rat / nan / inf -/
+def floatOfP : P Y → R
+  | .val (.rat n d) => .ok (.rat n d)
+  | .val .nan => .ok .nan
+  | .val (.inf s) => .ok (.inf s)
+  | .val _ => .unmodelled
+  | .err => .reject
+  | .unknown => .unmodelled
+
+def floatConv : Y → R
+  | .none => .ok .none
+  | .bool b => .ok (.rat (if b then 1 else 0) 1)
+  | .int i => .ok (.rat i 1)
+  | .rat n d => .ok (.rat n d)
+  | .nan => .ok .nan
+  | .inf s => .ok (.inf s)
+  | .str s => floatOfP (pyFloat s)
+
+def vFloat (r : Option Range) (v : Y) : R := rangeCheck r (floatConv v)
+
+/-- `num`: ints and floats pass through unconverted, strings become float when they contain a dot, else int -/
+def numConv : Y → R
+  | .none => .ok .none
+  | .str s =>
+    if s.toList.any (· == '.') then floatOfP (pyFloat s)
+    else (match pyInt s with | .val i => .ok (.int i) | .err => .reject | .unknown => .unmodelled)
+  | x => .ok x
+
+def vNum (r : Option Range) (v : Y) : R := rangeCheck r (numConv v)
 
 /-- `str(item)` for the scalar kinds whose text the model knows -/
 def pyStr : Y → Option String
@@ -266,7 +274,7 @@ def vPow2 (v : Y) : R :=
   match v with
   | .none => .ok .none
   | x =>
-    match vInt Option.none x with
+    match intConv x with
     | .ok (.int i) => if isPow2 i then .ok x else .reject
     | .ok _ => .reject
     | .reject => .reject
@@ -333,7 +341,7 @@ def HasType (vd : V) (out : Y) : Bool :=
   | .num r, .inf s => inRange r (.inf s)
   | .bool, .bool _ => true
   | .str, .str _ => true
-  | .lstr, .str s => lowerS s == s
+  | .lstr, .str _ => true
   | .ms, .int _ => true
   | .secs, .rat _ _ => true
   | .enum vals, .str s => (vals.map lowerS).contains s || s == "None"
